@@ -15,7 +15,7 @@ from ..ref import quad as Q
 
 PROP = 'C07'
 CONFIGS = ['scipy']
-DECIDING = ['path.inv_arclength']
+DECIDING = ['path.inv_arclength', 'Arc.ilength', 'CubicBezier.ilength', 'Path.ilength']
 ANCHORED = ['inv_arclength', '.ilength']
 RULE = ('cases = one curve (each segment type, or a path of 2-5 mixed segments) at coordinate scale 1e-3..1e6 with a sorted grid '
         'of arc lengths s in [0, L] (0, L, segment boundaries of a path and their ulp-neighbours, 7-point grid, random) plus out-of-'
@@ -82,7 +82,7 @@ def _cls(curve):
 
 def post_inv(call):
     ctx = core.CTX
-    curve, s = call.a.get('curve'), call.a.get('s')
+    curve, s = call.a.get('curve', call.a.get('self')), call.a.get('s')
     if not isinstance(s, (int, float, np.floating, np.integer)):
         return False
     s = float(s)
@@ -151,7 +151,7 @@ def post_inv(call):
 
 def exc_inv(call):
     ctx = core.CTX
-    curve, s = call.a.get('curve'), call.a.get('s')
+    curve, s = call.a.get('curve', call.a.get('self')), call.a.get('s')
     if not isinstance(s, (int, float, np.floating, np.integer)):
         return False
     s = float(s)
@@ -175,6 +175,7 @@ def exc_inv(call):
     ctx.violation('raises/%s/%s' % (type(e).__name__, name),
                   'ilength(s) raised %s for s %s [0, L]' % (type(e).__name__, 'inside' if inside else 'outside'),
                   {'s': s, 'L': L, 'length_evaluations': steps, 'exc': str(e)[:100],
+                   'where': ''.join(__import__('traceback').format_tb(e.__traceback__)[-3:])[-700:],
                    'curve': gen.seg_spec(curve) if name != 'Path' else gen.path_spec(curve)})
     return True
 
@@ -184,6 +185,10 @@ def install(ctx):
     for cls in (P.Line, P.QuadraticBezier, P.CubicBezier, P.Arc, P.Path):
         monitor.install(cls, 'length')           # counted only (bisection steps)
     monitor.install(P, 'inv_arclength', post=post_inv, pre=pre_inv, on_exc=exc_inv)
+    # ... and at the boundary the user calls: the ilength methods (normally thin wrappers of inv_arclength; a
+    # method that answers by itself must meet the same statement)
+    for cls in (P.Line, P.QuadraticBezier, P.CubicBezier, P.Arc, P.Path):
+        monitor.install(cls, 'ilength', post=post_inv, pre=pre_inv, on_exc=exc_inv)
 
 
 # --------------------------------------------------------------------------
